@@ -165,6 +165,8 @@ STEM = "c02_g0_t0.imec0.ap"
 
 
 class CompModel(object):
+    fault_kinds = ("kill", "error")
+
     def __init__(self, tier, start):
         self.tier = tier
         self.start = start
@@ -188,7 +190,7 @@ class CompModel(object):
         ev.append(dict(name="decompress_to_scratch", scratch="scratch"))
         return ev
 
-    def run(self, root, event, crash_at):
+    def run(self, root, event, crash_at, kind="kill"):
         fbin = os.path.join(root, STEM + ".bin")
         fcbin = os.path.join(root, STEM + ".cbin")
         fch = os.path.join(root, STEM + ".ch")
@@ -206,7 +208,7 @@ class CompModel(object):
         steps = [(mtscomp.Writer, "_compress_chunk", "compress-chunk"), (mtscomp.Reader, "_decompress_chunk", "decompress-chunk"),
                  (mtscomp, "check", "post-check")]
         obs = dict(status=None, exc=None)
-        with faults.watch(root, crash_at=crash_at, steps=steps) as w:
+        with faults.watch(root, crash_at=crash_at, steps=steps, kind=kind) as w:
             sr = None
             try:
                 sr = spikeglx.Reader(target, sort=False)
@@ -247,14 +249,15 @@ class CompModel(object):
         except Exception:
             return None
 
-    def judge(self, root, pre_snap, info, event, crash, obs, log):
+    def judge(self, root, pre_snap, info, event, crash, obs, log, fault="kill"):
         v = []
         data = self._orig()
         raw = data.tobytes()
         fbin = os.path.join(root, STEM + ".bin")
         fcbin = os.path.join(root, STEM + ".cbin")
         fch = os.path.join(root, STEM + ".ch")
-        ctx = "%s%s" % (_ev(event), "" if crash is None else " killed before point %d (%s)" % (crash, log[crash] if crash < len(log) else "?"))
+        ctx = "%s%s" % (_ev(event), "" if crash is None else " %s point %d (%s)" % ("killed before" if fault == "kill" else "with an I/O error injected at", crash, log[crash] if crash < len(log) else "?"))
+        failed = crash is not None and (fault == "kill" or obs.get("exc") is not None)
         bin_ok = os.path.exists(fbin) and open(fbin, "rb").read() == raw
         cbin_dec = self._decode(fcbin, fch) if (os.path.exists(fcbin) and os.path.exists(fch)) else None
         cbin_ok = cbin_dec is not None and cbin_dec.shape == data.shape and np.array_equal(cbin_dec, data)
@@ -272,7 +275,9 @@ class CompModel(object):
                 and (STEM + ".bin") not in pre_snap:
             v.append(("final-name:bin", "%s: decompress_to_scratch left an incomplete file under the final .bin name" % ctx))
         # (c) a faulted compress / decompress-to-scratch leaves its source untouched
-        if crash is not None:
+        if crash is not None and not failed:
+            pass        # the library absorbed the injected error and returned normally: only the state invariants (a), (b) apply
+        elif crash is not None:
             if event["name"] == "compress_file" and not bin_ok:
                 v.append(("source-touched:compress", "%s: the uncompressed source is gone or modified after an interrupted compression" % ctx))
             if event["name"] == "decompress_to_scratch" and not cbin_ok:
@@ -329,12 +334,13 @@ def _replay(case):
     root = os.path.join(synth.proc_scratch(), "c02_replay")
     for ev in case["history"]:
         crash = ev.get("crash")
-        event = {k: v for k, v in ev.items() if k != "crash"}
+        fault = ev.get("fault", "kill")
+        event = {k: v for k, v in ev.items() if k not in ("crash", "fault")}
         histories.restore(root, snap)
-        obs, w = model.run(root, event, crash)
+        obs, w = model.run(root, event, crash, kind=fault)
         if obs is None:
             raise HarnessError("recorded event not enabled in replay")
-        viol, info = model.judge(root, snap, info, event, crash, obs, w.log)
+        viol, info = model.judge(root, snap, info, event, crash, obs, w.log, fault=fault)
         snap = histories.snapshot(root)
     return Res(viol)
 
